@@ -31,8 +31,14 @@ def run(ctx):
         os.chmod(noexec, 0o644)
         for i in range(nrec):
             ntx = [2, 1, 3][i % 3]
-            rec, desc = sdlib.make_recording(rng, td, "r%d" % i, ntx=ntx, back_to_back=(i % 2 == 1), close_cut=(i % 3 == 0),
-                                             lossy=False, rate=rng.choice([8000, 11025, 22050]), header_only_last=False)
+            # every fourth recording: two headers and no trailer at all, cut at the last burst (the second header is still held by
+            # the assembler when the input ends, while the first child is being fed)
+            eof_pending = (i % 4 == 1)
+            if eof_pending:
+                ntx = 2
+            rec, desc = sdlib.make_recording(rng, td, "r%d" % i, ntx=ntx, back_to_back=(i % 2 == 1) or eof_pending,
+                                             close_cut=(i % 3 == 0) or eof_pending,
+                                             lossy=False, rate=rng.choice([8000, 11025, 22050]), header_only_last=eof_pending)
             base = sdlib.run_samedec(rec)
             lib = rec.library_lines()
             if base["rc"] != 0 or base["stdout"] != lib:
